@@ -271,6 +271,7 @@ class Builder:
         self.mode = mode
         self.memo = {}
         self.nodes_built = 0
+        self.nodes = []             # every object built, in construction order (the caller's own references)
 
     def build(self, s):
         E = self.E
@@ -302,6 +303,7 @@ class Builder:
                 obj = cls(kids[0], kids[1])
             else:
                 obj = cls(*kids)
+        self.nodes.append(obj)
         if self.mode == "dag":
             self.memo[key] = obj
         return obj
